@@ -44,6 +44,8 @@ OriginatorID == A(128, 9, U32(9))
 ClusterList == A(128, 10, U32(1) \o U32(2))
 LargeComm == A(192, 32, U32(1) \o U32(2) \o U32(3))
 OTC == A(192, 35, U32(65001))
+AS4Path == A(192, 17, <<2, 1>> \o U32(65010))
+AS4Aggr == A(192, 18, U32(65001) \o <<10, 0, 0, 9>>)
 Unknown == A(192, 99, Rep(7, 5))
 UnknownLong == A(192, 100, Rep(9, 300))
 V6NextHop == <<32, 1, 13, 184>> \o Rep(0, 11) \o <<1>>
@@ -74,7 +76,7 @@ UpdDef == [ updV4      |-> Upd(<<16, 10, 9>>, <<Origin, ASPath4, NextHop, MED, L
             updV4as2   |-> Upd(<<>>, <<Origin, ASPath2, NextHop>>, <<8, 10>>),
             updV4ap    |-> Upd(U32(1) \o <<16, 10, 9>>, <<Origin, ASPath4, NextHop>>, U32(2) \o <<24, 10, 1, 2>>),
             updAllAttr |-> Upd(<<>>, <<Origin, ASPath4, NextHop, MED, LocalPref, Atomic, Aggregator, Communities, OriginatorID, ClusterList,
-                                      LargeComm, OTC, Unknown>>, <<24, 10, 1, 2>>),
+                                      LargeComm, OTC, AS4Path, AS4Aggr, Unknown>>, <<24, 10, 1, 2>>),
             updLong    |-> Upd(<<>>, <<Origin, ASPath4, NextHop, UnknownLong>>, <<24, 10, 1, 2>>),
             updV6      |-> Upd(<<>>, <<MPReach6, Origin, ASPath4>>, <<>>),
             updV6ll    |-> Upd(<<>>, <<MPReach6LL, Origin, ASPath4>>, <<>>),
